@@ -183,7 +183,6 @@ func c14RateLimit(run *ev.Run) int {
 	defer w.finish(&bfsResult{})
 	w.apply("reg:G1:temp")
 	limit, rate := sc.ApiArchiveLimit, sc.ApiArchiveRate
-	type adm struct{ at time.Duration }
 	var admitted []time.Duration
 	n := 0
 	req := func() int {
@@ -194,27 +193,47 @@ func c14RateLimit(run *ev.Run) int {
 		}
 		return code
 	}
-	var calls []rlCall
-	step := func(d time.Duration, k int) {
-		vtime.Advance(d)
-		for i := 0; i < k; i++ {
-			at := vtime.Offset()
-			code := req()
-			if code != 200 && code != 429 {
-				run.Violation("archive-status", fmt.Sprint(code))
+	// every sequence up to the depth below of {request, advance half a window, advance half a window + 1 ns,
+	// advance a window - 1 ns}; between sequences the limiter is given two idle windows to forget everything
+	ops := []string{"req", "+half", "+half+1", "+rate-1"}
+	depth := 7
+	var rec func(hist []string)
+	var worst string
+	rec = func(hist []string) {
+		if len(hist) == depth {
+			vtime.Advance(2*rate + 1)
+			var calls []rlCall
+			for _, op := range hist {
+				switch op {
+				case "req":
+					at := vtime.Offset()
+					code := req()
+					if code != 200 && code != 429 {
+						run.Violation("archive-status", fmt.Sprint(code))
+					}
+					calls = append(calls, rlCall{at, at, code == 200})
+				case "+half":
+					vtime.Advance(rate / 2)
+				case "+half+1":
+					vtime.Advance(rate/2 + 1)
+				case "+rate-1":
+					vtime.Advance(rate - 1)
+				}
 			}
-			calls = append(calls, rlCall{at, at, code == 200})
+			if sig, what := rlJudge(limit, rate, calls); sig != "" && worst == "" {
+				worst = sig
+				run.Violation("archive-rate-limit/"+sig, map[string]interface{}{"what": what, "sequence": hist, "calls": calls})
+			}
+			return
+		}
+		for _, op := range ops {
+			if op != "req" && len(hist) > 0 && hist[len(hist)-1] != "req" && len(hist) > 2 && hist[len(hist)-2] != "req" {
+				continue // three advances in a row only move the clock further: covered by shorter gaps
+			}
+			rec(append(hist, op))
 		}
 	}
-	step(0, limit+2)
-	step(rate-1, 2)
-	step(1, limit+1)
-	step(rate/2, 2)
-	step(rate/2, 2)
-	step(rate+1, limit+1)
-	if sig, what := rlJudge(limit, rate, calls); sig != "" {
-		run.Violation("archive-rate-limit/"+sig, map[string]interface{}{"what": what, "calls": calls})
-	}
+	rec(nil)
 	_ = admitted
 	return n
 }
